@@ -73,9 +73,11 @@ class CallMixin:
             saved = st.env.get(v.id)
             st.env[v.id] = VInt(c)
             n0 = len(st.pc)
+            self.under_binder = getattr(self, "under_binder", 0) + 1
             try:
                 body = self.to_bool(self.ev(args[3], st))
             finally:
+                self.under_binder -= 1
                 if saved is None:
                     st.env.pop(v.id, None)
                 else:
@@ -146,6 +148,37 @@ class CallMixin:
                 st.env = saved
             st.assume(z3.Implies(z3.And(req) if req else z3.BoolVal(True), z3.And(ens)))
             self.assume_tag("LEMMA:" + name)
+            return VBool(True)
+        if name == "upd":  # upd(A, i, v): the raw array A with element i replaced by v
+            A = self.ev(node.args[0], st)
+            i = smt.som(self.to_int(self.ev(node.args[1], st)))
+            v = self.ev(node.args[2], st)
+            vt = self.to_real(v) if A.t.sort().range() == REAL else self.to_int(v)
+            return VOpaqueArr(z3.Store(A.t, i, vt))
+        if name == "at":  # at(A, i): element i of a raw array
+            A = self.ev(node.args[0], st)
+            i = smt.som(self.to_int(self.ev(node.args[1], st)))
+            e = z3.Select(A.t, i)
+            return VReal(e) if e.sort() == REAL else VInt(e)
+        if name == "store_sum":  # store_sum(arr): instance of lemma_store_sum for the last single-element store into arr
+            v = self.ev(node.args[0], st)
+            h = st.heap[v.obj]
+            if not z3.is_store(h):
+                return VBool(True)
+            lc = self.reg.get("verif:specs/clients.py::lemma_store_sum")
+            if lc is None:
+                raise OutOfSubset("lemma_store_sum not registered")
+            h0, idx, val_ = h.arg(0), h.arg(1), h.arg(2)
+            saved = st.env
+            st.env = {"A": VOpaqueArr(h0), "i": VInt(idx), "v": (VReal(val_) if val_.sort() == REAL else VInt(val_)),
+                      "n": VInt(smt.som(v.off + v.n))}
+            try:
+                req = [self.spec_bool(r, st) for r in lc.requires]
+                ens = [self.spec_bool(e, st) for (_l, e, _c) in lc.ensures]
+            finally:
+                st.env = saved
+            st.assume(z3.Implies(z3.And(req), z3.And(ens)))
+            self.assume_tag("LEMMA:lemma_store_sum")
             return VBool(True)
         if name == "raw":  # raw(view, k): element k of the *underlying object* (absolute index; matches any select on it)
             v = self.ev(node.args[0], st)
